@@ -34,8 +34,8 @@ bool build_check(const std::string& prop, const std::string& tier, CheckSpec& s,
     if (prop == "C11" || prop == "C12" || prop == "C13" || prop == "C14") {
         int focus = atoi(prop.c_str() + 1);
         s.rule = "case = one model-state transition or judged interaction of a WKD-IBE history: (op, parent pattern -> child pattern over {free, fixed(0), fixed(v), hidden}^l, omit-all flag) for key-producing steps; (from list -> to list) for adjustments; (key pattern, should-open) for decryptions; (signer pattern, extension size, mutation) for signatures; distinct by that tuple; non-trivial iff the step changes model state or is a negative/tampered case";
-        s.batches.push_back(mk("wkd", q ? 1400 : 120000, FAST, "single", {{"focus", focus}}, "histories biased towards the ops of this property; party runs on a seed-chosen replica through a seed-chosen view (C or C++ API)"));
-        s.batches.push_back(mk("wkd", q ? 400 : 40000, FAST, "single", {{"focus", 0}}, "unbiased swarm mix"));
+        s.batches.push_back(mk("wkd", q ? 1400 : 60000, FAST, "single", {{"focus", focus}}, "histories biased towards the ops of this property; party runs on a seed-chosen replica through a seed-chosen view (C or C++ API)"));
+        s.batches.push_back(mk("wkd", q ? 400 : 20000, FAST, "single", {{"focus", 0}}, "unbiased swarm mix"));
         s.batches.push_back(mk("wkd", q ? 48 : 3000, {"C/portable32"}, "single", {{"focus", focus}, {"maxops", 12}}, "32-bit-word replica (10x slower)"));
         s.batches.push_back(mk("wkd", q ? 60 : 3000, FAST, "duo", {{"focus", focus}, {"maxops", 12}}, "two histories as concurrent caller threads under the seeded scheduler (preemption inside field multiplications)"));
         s.batches.push_back(mk("wkd", q ? 32 : 2000, FAST, "single", {{"focus", focus}, {"wide", 1}, {"maxops", 9}}, "wide systems: 12..80 slots, keys with long free-slot arrays, lists with slot indices beyond 64"));
